@@ -38,5 +38,5 @@ def run(ctx):
         "(vcorr_pearson of the series and its lag, checked under C11) takes on that input",
         "integer element types cannot hold the null that lagging introduces: half_life is driven with float and optional "
         "series (DESIGN 5.8)",
-        "non-termination is detected by a 5 s watchdog",
+        "non-termination is detected by a 120 s watchdog (wall clock: generous, because a loaded machine can starve a thread for seconds)",
     ]
